@@ -32,11 +32,13 @@ def check(repo: Repo, rep: Report) -> None:
     st = Staging(repo, m)
     n_fact = 0
     for mod in repo.modules.values():
-        if not mod.rel.startswith("reactivex/operators/"):
+        if not (mod.rel.startswith("reactivex/operators/") or mod.rel == "reactivex/pipe.py"):
             continue
         for S in mod.root.children:
             if not S.is_func:
                 continue
+            if mod.rel == "reactivex/pipe.py" and (S.name != "compose" or S.has_decorator("overload")):
+                continue        # compose(...) is the operator factory every composite operator (and user code) is built with
             if m.stage.get(S, 0) != 0:
                 # curry_flip operator: whole body is per application
                 rep.ob("E1-L0-state", S, "@curry_flip: body runs per application", True, nontrivial=False)
